@@ -72,5 +72,10 @@ class C17Release(C17):
         return []
 
 
+from deepbase import DeepPart
+
 PROP = C17()
+PROP.parts = [PROP, DeepPart("C17", "meta", "meta",
+                             b"d8:announce3:URL4:infod6:lengthi5e4:name1:a12:piece lengthi4e6:pieces20:AAAAABBBBBCCCCCDDDDDe3:zzz", b"e",
+                             "Metainfo::from_bencode")]
 PROP.release_parts = [C17Release()]
